@@ -37,6 +37,7 @@ class Engine:
     def schema_factory(self):
         if not hasattr(self, "_schema"):
             self._schema = Schema(self.src)
+            self._schema.uf_hook = getattr(self.reg, "uf_hook", None)
         return self._schema
 
     def verify(self, keys: list[str], tier="quick", timeout_ms=10000):
